@@ -84,3 +84,27 @@ Theorem C10_translated_responder_new_is_model :
   = ok_opt (responder_new ed_pk ed_sign v lt online_seed).
 Proof. exact gen_responder_new_model. Qed.
 Print Assumptions C10_translated_responder_new_is_model.
+
+(* ---- from the configuration file to the identity, through the translated code only: the file loader
+   (C16), kms::load_seed of this build and LongTermKey::new. The long-term signer and the SRV value of a
+   server started from a file are a function of the hex text of the file's LAST seed line, and of nothing
+   else in the file or the environment ---- *)
+Require Import RV.Model.Config RV.Model.ConfigLoad RV.Model.LoadModel RV.Proofs.CodeLoad RV.Proofs.CodeStart.
+From Coq Require Import List. Import ListNotations.
+
+Theorem C10_translated_load_seed_is_model :
+  forall c, gen_load_seed c = match lc_kms c with KPlaintext => Ok (lc_seed c) | _ => Err InvalidConfiguration end.
+Proof. exact gen_load_seed_model. Qed.
+Print Assumptions C10_translated_load_seed_is_model.
+
+Theorem C10_translated_identity_from_file :
+  forall H, HashLen H -> forall ed_pk cores entries f c seed,
+  gen_file_config_new cores (Ok [DHash entries]) f = Ok c ->
+  gen_load_seed c = Ok seed ->
+  gen_ltk_new ed_pk H seed = Ok (seed, ltk_srv_value H ed_pk seed)
+  /\ match last_written entries t_seed with
+     | Some v => exists s, v = YStr s /\ hex_decode s = Some seed
+     | None => seed = []
+     end.
+Proof. exact gen_identity_from_file. Qed.
+Print Assumptions C10_translated_identity_from_file.
